@@ -4,8 +4,21 @@
 #include "quill/Backend.h"
 #include "h_codec.h"
 
+// a user-defined FrontendOptions type: its threads own a separate thread context / queue
+struct CustomFOpts
+{
+  static constexpr quill::QueueType queue_type = quill::QueueType::BoundedBlocking;
+  static constexpr size_t initial_queue_capacity = 64u * 1024u;
+  static constexpr uint32_t blocking_queue_retry_interval_ns = 800;
+  static constexpr size_t unbounded_queue_max_capacity = 2ull * 1024u * 1024u * 1024u;
+  static constexpr quill::HugePagesPolicy huge_pages_policy = quill::HugePagesPolicy::Never;
+};
+using CustomFrontend = quill::FrontendImpl<CustomFOpts>;
+using CustomLogger = quill::LoggerImpl<CustomFOpts>;
+
 namespace vh
 {
+static CustomLogger* g_custom_logger = nullptr;
 static quill::ManualBackendWorker* g_mbw = nullptr;
 static quill::BackendOptions g_bopts;
 static std::shared_ptr<RecSink> g_sink;
@@ -100,6 +113,45 @@ void H::end()
   std::fflush(out);
 }
 
+// drain without measuring a queue (the requester may not own a default-options context)
+static void poll_plain(H& h)
+{
+  std::unique_lock<std::mutex> lk(h.m);
+  h.req_ctx = nullptr;
+  ++h.req;
+  h.cv.notify_all();
+  h.cv.wait(lk, [&] { return h.done == h.req; });
+}
+
+// C11: "after a thread's first log call (or preallocate())" holds for every Frontend instantiation: a fresh thread calls
+// preallocate() of a CUSTOM frontend and then logs through that frontend's logger (case id -3; events only)
+static void custom_frontend_scenario(H& h, int tid)
+{
+  std::thread th([&h, tid] {
+    tl_tid = tid;
+    ev(kThreadStart);
+    CustomFrontend::preallocate();
+    ev(kPreallocate);
+    std::string const long_string(40, 'c');
+    char const* cs = "c-string";
+    for (int k = 0; k < 3; ++k)
+    {
+      ev(kLogBegin, -3, k * 2, 1);
+      tl_window = 1;
+      if (k == 0) { LOG_INFO(g_custom_logger, "custom frontend"); }
+      else if (k == 1) { LOG_INFO(g_custom_logger, "custom frontend {} {}", 42, long_string); }
+      else { LOG_WARNING(g_custom_logger, "custom frontend {} {}", cs, 2.5); }
+      tl_window = 0;
+      ev(kLogEnd, -3, k * 2);
+    }
+    poll_plain(h);
+  });
+  th.join();
+  h.case_id = -3;
+  flush_events(h);
+  g_sink->msgs.clear();
+}
+
 static void caller_main(H& h, std::vector<int> const& only)
 {
   tl_tid = 1;
@@ -117,7 +169,8 @@ static void caller_main(H& h, std::vector<int> const& only)
     h.poll_now();
     h.end();
   }
-  int next_tid = 2;
+  custom_frontend_scenario(h, 2);
+  int next_tid = 3;
   for (int i = 0; i < g_ncases; ++i)
   {
     CaseEntry const& c = g_cases[i];
@@ -166,6 +219,7 @@ int main(int argc, char** argv)
   pfo.add_metadata_to_multi_line_logs = false;
   h.logger = Frontend::create_or_get_logger("L", g_sink, pfo, quill::ClockSourceType::System);
   h.logger->set_log_level(quill::LogLevel::TraceL3);
+  g_custom_logger = CustomFrontend::create_or_get_logger("LC", g_sink, pfo, quill::ClockSourceType::System);
 
   // constants of the code under test (read from the real objects, never typed in)
   {
@@ -197,11 +251,15 @@ int main(int argc, char** argv)
       {
         // consumed bytes = consumer reader-position delta over the drain of the requesting thread's queue
         // (the requester is blocked in poll_now(), so its context is alive)
-        QPos const p0 = H::rpos(h.req_ctx);
-        g_mbw->poll();
-        QPos const p1 = H::rpos(h.req_ctx);
-        h.poll_node_changed = (p1.node != p0.node);
-        h.poll_consumed = static_cast<long>(p1.node == p0.node ? p1.pos - p0.pos : p1.pos);
+        if (h.req_ctx == nullptr) { g_mbw->poll(); }
+        else
+        {
+          QPos const p0 = H::rpos(h.req_ctx);
+          g_mbw->poll();
+          QPos const p1 = H::rpos(h.req_ctx);
+          h.poll_node_changed = (p1.node != p0.node);
+          h.poll_consumed = static_cast<long>(p1.node == p0.node ? p1.pos - p0.pos : p1.pos);
+        }
         h.done = h.req;
         h.cv.notify_all();
         continue;
